@@ -52,6 +52,24 @@ pub fn check_value(v: &V, local: &mut Local, well_formed: bool, f: &dyn Fn(&V) -
     }
 }
 
+/// `check_value` for a second oracle of the same check: the case carries `{"oracle": tag}` so the
+/// replay can pick the same oracle.
+pub fn check_value_as(v: &V, local: &mut Local, well_formed: bool, tag: &str, f: &dyn Fn(&V) -> Verdict) {
+    local.eval();
+    match f(v) {
+        Ok(()) => {
+            local.outcome("ok");
+        }
+        Err(_) => {
+            let min = shrink(v, well_formed, &|c| f(c).is_err());
+            let (stage, detail) = f(&min).err().expect("minimal value must still fail");
+            let sig = format!("{stage}:{}", shape_sig(&min));
+            local.outcome(&stage);
+            local.fail(&sig, json!({"value": to_json(&min), "oracle": tag}), detail);
+        }
+    }
+}
+
 /// Replay of a `{"value": …}` case.
 pub fn replay_value(case: &J, f: &dyn Fn(&V) -> Verdict) -> Verdict {
     let v = crate::model::v::from_json(&case["value"]);
